@@ -21,6 +21,8 @@ INFO = {
 
 MARK = 'zq9'
 STRS = ['', 'plain', 'héllo ☃', '<zq9a>', '"quoted" & <b>', 'a\nb', '{', '[1, 2', 'null', '123', 'x' * 300, ' spaced ', '{zq9b}', '\x00\x07',
+        # long tokens: longer than any buffer / chunk size a renderer may use (1 KiB, 4 KiB, 8 KiB), also through \u escapes
+        'y' * 1100, 'é' * 250, 'w' * 5000, ('lorem <zq9long> ' * 600),
         '<html>', '<!doctype html><html><body>x</body></html>', '{"a": 1}', '[1, 2]']
 KEYS = ['a', 'b', 'key', 'é', '<zq9k>', 'k"q', '', 'A', '0', 'long_key_name', '<html>']
 
